@@ -20,9 +20,12 @@
    delivers a solution, number of paths of the guessed-weights solution, objective values) is a
    parameter.  The two deviations of the pinned code from property C13 are explicit switches:
      mgs_skips      MinGenSet.solve goes on with k+1 after ANY non-optimal status     (DESIGN §6 #14)
-     exit_on_fail   MinFlowDecomp calls exit(0) when its MinGenSet model is unsolved   (DESIGN §6 #15)
-   [faithful] sets both, [corrected] clears both.  The exclusive upper ends of the ranges
-   (DESIGN §6 #1, #13) are modelled as they are (they belong to C03/C09/C15, not to C13). *)
+     exit_on_fail   MinFlowDecomp calls exit(0) when its MinGenSet model is unsolved   (DESIGN §6 #15;
+                    repaired in /repo commit 78680dc: the faithful model has it off)
+   [true] = the code as it stands, [false] = corrected.  The upper ends of the ranges are modelled
+   as they are: MinGenSet's is exclusive (DESIGN §6 #13); for the four graph searches it is a switch
+   upper_excl (DESIGN §6 #1: exclusive on the pinned tree, inclusive |E| since /repo commit 67a34b1).
+   Both belong to C03/C09/C15, not to C13: every C13 theorem holds for either setting. *)
 From Coq Require Import List Bool Arith Lia QArith Qabs.
 Import ListNotations.
 Local Close Scope Q_scope.
@@ -121,6 +124,8 @@ Fixpoint kloop (presolved : nat -> bool) (over : nat -> bool) (ks : list nat) (s
 
 Definition never : nat -> bool := fun _ => false.
 Definition krange (lb ub : nat) : list nat := seq lb (ub - lb).     (* Python range(lb, ub) *)
+(* range(lb, |E|) before /repo 67a34b1, range(lb, |E| + 1) since *)
+Definition upper (upper_excl : bool) (nedges : nat) : nat := if upper_excl then nedges else S nedges.
 
 (* ---------------------------------------------------------------- MinGenSet.solve
    for k in range(lowerbound, max(lowerbound+1, len(initial_numbers))):
@@ -163,7 +168,8 @@ Definition lb_phase (mgs_skips exit_on_fail use_mgs : bool) (lb0 nweights : nat)
 (* ---------------------------------------------------------------- MinFlowDecomp / ...Cycles *)
 Record fd_params := mkfd {
   lb0 : nat;                 (* lower bound before MinGenSet *)
-  nedges : nat;              (* G.number_of_edges(): exclusive upper end of the range *)
+  upper_excl : bool;         (* range(lb, |E|) instead of range(lb, |E| + 1) *)
+  nedges : nat;              (* G.number_of_edges() *)
   use_mgs : bool;            (* optimization option use_min_gen_set_lowerbound *)
   nweights : nat;            (* number of distinct flow values = len(numbers) of the MinGenSet model *)
   guessed : bool;            (* optimization option optimize_with_guessed_weights *)
@@ -189,29 +195,29 @@ Definition fd_solve (mgs_skips exit_on_fail : bool) (P : fd_params) (sts : list 
             (* _given_weights_model is kept only if it is solved *)
             let given := if is_optimal (status_of r) then Some (gw_paths P) else None in
             let '(rs, n) := kloop (fun k => given_match given k || greedy P k) (over P)
-                                  (krange lb (nedges P)) sts2 (S n1) in
+                                  (krange lb (upper (upper_excl P) (nedges P))) sts2 (S n1) in
             mkout rs n (S n1) lb
         end
       else
-        let '(rs, n) := kloop (greedy P) (over P) (krange lb (nedges P)) sts1 n1 in
+        let '(rs, n) := kloop (greedy P) (over P) (krange lb (upper (upper_excl P) (nedges P))) sts1 n1 in
         mkout rs n n1 lb
   end.
 
 (* MinFlowDecomp: no elapsed-time exit; MinGenSet failure -> exit(0) (switch) *)
 Definition mfd_solve (mgs_skips exit_on_fail : bool) (P : fd_params) (sts : list raw) : outcome :=
   fd_solve mgs_skips exit_on_fail
-           (mkfd (lb0 P) (nedges P) (use_mgs P) (nweights P) (guessed P) (gw_paths P) (greedy P) never) sts.
+           (mkfd (lb0 P) (upper_excl P) (nedges P) (use_mgs P) (nweights P) (guessed P) (gw_paths P) (greedy P) never) sts.
 
 (* MinFlowDecompCycles: no greedy; MinGenSet failure is ignored (lower bound stays lb0) *)
 Definition mfdc_solve (mgs_skips : bool) (P : fd_params) (sts : list raw) : outcome :=
   fd_solve mgs_skips false
-           (mkfd (lb0 P) (nedges P) (use_mgs P) (nweights P) (guessed P) (gw_paths P) never (over P)) sts.
+           (mkfd (lb0 P) (upper_excl P) (nedges P) (use_mgs P) (nweights P) (guessed P) (gw_paths P) never (over P)) sts.
 
 (* ---------------------------------------------------------------- MinPathCover / MinPathCoverCycles *)
-Definition mpc_solve (lb nedges : nat) (sts : list raw) : outcome :=
-  let '(r, n) := kloop never never (krange lb nedges) sts 0 in mkout r n 0 lb.
-Definition mpcc_solve (lb nedges : nat) (sts : list raw) : outcome :=
-  let '(r, n) := kloop never never (krange lb nedges) sts 0 in mkout r n 0 lb.
+Definition mpc_solve (upper_excl : bool) (lb nedges : nat) (sts : list raw) : outcome :=
+  let '(r, n) := kloop never never (krange lb (upper upper_excl nedges)) sts 0 in mkout r n 0 lb.
+Definition mpcc_solve (upper_excl : bool) (lb nedges : nat) (sts : list raw) : outcome :=
+  let '(r, n) := kloop never never (krange lb (upper upper_excl nedges)) sts 0 in mkout r n 0 lb.
 
 (* ---------------------------------------------------------------- NumPathsOptimization.solve *)
 Record npo_params := mknpo {
@@ -293,14 +299,14 @@ Definition run_kmodel (ext objfill : bool) (ops : list kop) : list kout * nat :=
   let c := mkcfg ext objfill in (snd (kruns c (kinit c) ops), kinvocations c ops).
 
 Definition run_mgs (skips : bool) (lb n : nat) (sts : list raw) : outcome := mgs_solve skips lb n sts.
-Definition run_mfd (skips exits : bool) (lb0 ne : nat) (umgs : bool) (nw : nat) (gu : bool) (gw : nat)
+Definition run_mfd (skips exits excl : bool) (lb0 ne : nat) (umgs : bool) (nw : nat) (gu : bool) (gw : nat)
   (gr : list bool) (sts : list raw) : outcome :=
-  mfd_solve skips exits (mkfd lb0 ne umgs nw gu gw (of_list gr) never) sts.
-Definition run_mfdc (skips : bool) (lb0 ne : nat) (umgs : bool) (nw : nat) (gu : bool) (gw : nat)
+  mfd_solve skips exits (mkfd lb0 excl ne umgs nw gu gw (of_list gr) never) sts.
+Definition run_mfdc (skips excl : bool) (lb0 ne : nat) (umgs : bool) (nw : nat) (gu : bool) (gw : nat)
   (ov : list bool) (sts : list raw) : outcome :=
-  mfdc_solve skips (mkfd lb0 ne umgs nw gu gw never (of_list ov)) sts.
-Definition run_mpc (lb ne : nat) (sts : list raw) : outcome := mpc_solve lb ne sts.
-Definition run_mpcc (lb ne : nat) (sts : list raw) : outcome := mpcc_solve lb ne sts.
+  mfdc_solve skips (mkfd lb0 excl ne umgs nw gu gw never (of_list ov)) sts.
+Definition run_mpc (excl : bool) (lb ne : nat) (sts : list raw) : outcome := mpc_solve excl lb ne sts.
+Definition run_mpcc (excl : bool) (lb ne : nat) (sts : list raw) : outcome := mpcc_solve excl lb ne sts.
 Definition run_npo (ks km : nat) (ff : bool) (da dr : option Q) (ext : list bool) (obj : list Q)
   (ov : list bool) (sts : list raw) : outcome :=
   npo_solve (mknpo ks km ff da dr (of_list ext) (q_of_list obj) (of_list ov)) sts.
